@@ -304,3 +304,5 @@ def run(chk):
     rule_pairing(chk)
     common.rule_instance_state(chk, "C16", [("_output", "MemoryLogger")])
     rule_file(chk)
+    from . import c19
+    c19.rule_writer(chk)  # many threads writing through the threaded writer: a line is dropped if the reader dies or stops early
